@@ -57,7 +57,9 @@ Section RunG.
         | Some A =>
             let viaproj := if ovr then mul_bigint_glv Ops endo N r n11 n12 n21 n22 (zlimbs N (k mod r)) P
                            else mul_scalar_proj Ops N r k P in
-            ok_opt [outr viaproj; outr (mul_scalar_aff Ops N r k A)]
+            (* each result is printed twice: the harness prints R and the API expression 2R - R (a product left in a
+               non-canonical internal state, e.g. a stale extended coordinate, shows in the second) *)
+            ok_opt [outr viaproj; outr viaproj; outr (mul_scalar_aff Ops N r k A); outr (mul_scalar_aff Ops N r k A)]
         end
     | 3 => (* mul_bigint on a raw limb slice *)
         let P := parse (arg 8 args) in
@@ -66,7 +68,7 @@ Section RunG.
         | Some A =>
             let viaproj := if ovr then mul_bigint_glv Ops endo N r n11 n12 n21 n22 a7 P
                            else mul_bigint_proj Ops a7 P in
-            ok_opt [outr viaproj; outr (mul_bigint_aff Ops a7 A)]
+            ok_opt [outr viaproj; outr viaproj; outr (mul_bigint_aff Ops a7 A); outr (mul_bigint_aff Ops a7 A)]
         end
     | 4 => ok_opt [outr (mul_bits_be Ops a7 (parse (arg 8 args)))]
     | 5 => (* WnafContext::new(w).table(P) *)
